@@ -28,7 +28,7 @@ STATE_MEASURE = "distinct (filter configuration, ordered block lengths) hashes =
 COMPONENTS = {"real": ["smpl_extract.filters.fir / iir (the compiled extension modules shipped in the working tree)", "smpl_extract.filters.common", "numpy"],
               "stub": []}
 ASSUMPTIONS = ["the compiled extensions cannot be rebuilt here (no Cython): the verdict concerns the .so files present, see coverage.build"]
-EXPECTED_PROBES = ["fir", "iir", "cdxtract", "chicksys_fir", "chicksys_iir_preset", "chicksys_iir_custom", "block_len_1",
+EXPECTED_PROBES = ["fir", "iir", "cdxtract", "chicksys_fir", "chicksys_iir_preset", "chicksys_iir_custom", "block_len_1", "block_longer_than_4096",
                    "block_shorter_than_memory", "extreme_signal", "silence_in_signal", "saturated", "reset_checked", "many_blocks", "twin_instance"]
 SHRINK = {"max_attempts": 400, "max_seconds": 30.0}
 ENUM_FILTERS = [
@@ -103,6 +103,17 @@ def gen(rng: random.Random, tier: str, index: int) -> dict:
     # so that the short-block defect cannot starve coverage of everything else
     mode = weighted(rng, [("ones", 2), ("short", 3), ("around_mem", 3), ("mixed", 4), ("two", 2),
                           ("long_blocks", 14 if kind in ("fir", "cdxtract", "cs_fir", "cs_fir_custom") else 3)])
+    if rng.random() < 0.06:
+        # whole samples handed over in one go: blocks a little over a power of two (any internal chunking of a big block must
+        # carry the history exactly as separate calls do); every block is longer than the filter memory
+        mode = "big_blocks"
+        splits = []
+        for _ in range(rng.randint(1, 3)):
+            base = rng.choice([1024, 2048, 4096, 4096, 4096, 8192, 8192, 16384])
+            splits.append(base * rng.randint(1, 2) + rng.choice([0, 1, 2, 3, 5, 6, 7, 11, 17, 18, 19, rng.randint(0, 40), rng.randint(0, 4096)]))
+        n = sum(splits)
+        return {"filter": f, "signal": {"key": "sig%d" % rng.getrandbits(30), "n": n, "style": style, "dtype": dtype}, "splits": splits,
+                "reset_check": rng.random() < 0.3, "twin": rng.random() < 0.3, "big": True}
     splits, left = [], n
     while left > 0:
         if mode == "ones":
@@ -255,6 +266,8 @@ def run(sc: dict) -> RunResult:
     mem = max(0, taps - 1)
     if min(splits) == 1:
         res.probes["block_len_1"] += 1
+    if max(splits) > 4096:
+        res.probes["block_longer_than_4096"] += 1
     short_block = family == "fir" and min(splits) < mem
     if family == "fir" and min(splits) < max(mem, 1) or (family == "iir" and min(splits) <= 1):
         res.probes["block_shorter_than_memory"] += 1
